@@ -76,6 +76,7 @@ struct Obs {           // everything observed in one run
     int64_t finalProbe; bool slotLeftovers;
     Str console; Vec<SimFile> files; uint64_t writesAfterClose, badHandle;
     Str terminal;                  // real separate-process mode: the bytes in the order a terminal would have received them - what the parent flushed, what each child flushed (a child starts with a copy of whatever the parent had printed and not yet flushed when it forked), and at the end what was still unflushed
+    Vec<int64_t> reallocFaultUnused; // lines (op.d) of realloc ops whose injected platform-realloc failure never fired: that reallocation made no platform realloc call
     Str childConsole;              // what forked children flushed to the console before they ended (real separate-process mode)
     Vec<int64_t> procLog;          // C11: (test, what, value) triples: 1 fork, 2 waitpid call, 3 kill(sig), 4 script exhausted (hang), 5 fork failed
     Str finalReport; int pluginCount, pluginCountExpected; int removedStillFound;
